@@ -303,6 +303,22 @@ def judge_table(ctx: Ctx, an: Any, scenes: List[List[Any]]) -> None:
             got_s = summ.loc[("ALL", col)]
             ctx.count("C19.summaries_checked")
             ctx.check(all(close(float(got_s[k]), v, 1e-5, 1e-6) for k, v in exp_s.items()), "C19/error_summary_not_mean_rms_max_of_errors", dict(info, column=col, got={k: float(got_s[k]) for k in exp_s}, expected=exp_s), tap)
+        # per-label rows: judged for the labels whose pairs are same-label pairs only (under which label a cross-label pair
+        # is filed is not fixed by the statement)
+        for lab in [l for l in an.all_labels if l != "ALL"]:
+            by_gt = [i for i, r in enumerate(pairs) if O.lab_of(r["gt"]) == str(lab)]
+            by_est = [i for i, r in enumerate(pairs) if O.lab_of(r["est"]) == str(lab)]
+            if not by_gt or by_gt != by_est:
+                continue
+            for col in ("x", "y", "length", "width"):
+                e = exp_err[col][by_gt]
+                exp_s = dict(average=float(np.mean(e)), rms=float(np.sqrt(np.mean(e * e))), max=float(np.max(np.abs(e))), min=float(np.min(np.abs(e))))
+                try:
+                    got_s = summ.loc[(str(lab), col)]
+                except KeyError:
+                    continue
+                ctx.count("C19.label_summaries_checked")
+                ctx.check(all(close(float(got_s[k]), v, 1e-5, 1e-6) for k, v in exp_s.items()), "C19/error_summary_not_mean_rms_max_of_errors", dict(info, label=str(lab), column=col, got={k: float(got_s[k]) for k in exp_s}, expected=exp_s), tap)
     # ---- rates and confusion matrix
     ratio = an.summarize_ratio()
     vals = ratio.to_numpy(dtype=float)
